@@ -239,6 +239,7 @@ func TestDriverTwin(t *testing.T) {
 			g := w.genDestroy(r, straddleEnd)
 			plan = g.plan
 			dry = w.dryRun(plan)
+			cases.Add(w.commitCase(plan, dry)) // self-contained: the branch run on the leader's state
 			gen = append(gen, g)
 			if special == "destroy-straddle" {
 				// a contract that records TIMESTAMP / NUMBER in the same block
@@ -346,12 +347,14 @@ func TestDriverTwin(t *testing.T) {
 				}
 				cases.Add(fmt.Sprintf("(CStake %s %s %s %s %s)", CqList(g.stake.vals), CqList(g.stake.dels), az(g.stake.caller), CqZ(g.stake.amount), obs))
 				side.Count("stake:" + g.stake.class)
+				if g.stake.tie {
+					side.Count("stake:tie_on_least_tokens")
+				}
 				side.Count(fmt.Sprintf("stake:delegated=%v", obs != "None"))
 			}
 		}
 		if dry != nil {
 			tr := res0.TxResults[0]
-			cases.Add(w.commitCase(plan, dry))
 			side.Count(fmt.Sprintf("destroy:commit_ok=%v", dry.ok))
 			side.Count(fmt.Sprintf("destroy:children=%d", len(plan.Children)))
 			for _, e := range plan.Extras {
@@ -395,6 +398,9 @@ func TestDriverTwin(t *testing.T) {
 		side.Case(b, special+"|"+strings.Join(canon, ","), anyOk && (special != "none" || len(gen) >= 3), desc)
 	}
 	side.Extra["distinct_touched_enumerations"] = len(enumOrders)
+	if cases.Len() == 0 {
+		cases.Add("(CFloor 0 0 false 1 0 0 true)") // the history forked before any case: keep the cases file well-formed
+	}
 	cases.Write(t, 60)
 	side.Write(t, dir)
 }
